@@ -52,6 +52,60 @@ def W(topo, S):
     return best
 
 
+def W_dp(topo, S):
+    """the same quantity by Held-Karp dynamic programming over subsets (exact, independent of the permutation
+    search in the code and in W above): shortest open walk through the metric closure visiting every node"""
+    nodes = [0] + sorted(S)
+    m = len(nodes)
+    dist = [bfs(topo, a) for a in nodes]
+    D = [[dist[i][nodes[j]] for j in range(m)] for i in range(m)]
+    INF = float("inf")
+    best = [[INF] * m for _ in range(1 << m)]
+    for i in range(m):
+        best[1 << i][i] = 0
+    for mask in range(1 << m):
+        for last in range(m):
+            cur = best[mask][last]
+            if cur == INF:
+                continue
+            for nxt in range(m):
+                if mask & (1 << nxt) or D[last][nxt] is None:
+                    continue
+                v = cur + D[last][nxt]
+                if v < best[mask | (1 << nxt)][nxt]:
+                    best[mask | (1 << nxt)][nxt] = v
+    r = min(best[(1 << m) - 1])
+    return None if r == INF else r
+
+
+def structured(tier):
+    """larger instances than the exhaustive family reaches: many sensitive subnets (up to 8) on chains, stars,
+    caterpillars, rings and seeded random connected graphs; (topology, sensitive subnets) pairs"""
+    import random
+    out = []
+
+    def graph(n, edges):
+        t = [[1 if a == b else 0 for b in range(n)] for a in range(n)]
+        for a, b in edges:
+            t[a][b] = t[b][a] = 1
+        return t
+    ks = (4, 5, 6, 7, 8) if tier == "quick" else (4, 5, 6, 7, 8, 9)
+    for k in ks:
+        n = k + 1
+        out.append(("chain", graph(n, [(i, i + 1) for i in range(n - 1)]), tuple(range(1, n))))
+        out.append(("star", graph(n + 1, [(0, 1)] + [(1, i) for i in range(2, n + 1)]), tuple(range(2, n + 1))))
+        out.append(("ring", graph(n, [(i, (i + 1) % n) for i in range(n)]), tuple(range(1, n))))
+    rng = random.Random(20)
+    for r in range(6 if tier == "quick" else 30):
+        k = rng.choice((5, 6, 7, 8) if tier == "quick" else (5, 6, 7, 8, 9))
+        n = k + 1 + rng.randrange(0, 3)
+        edges = [(rng.randrange(0, i), i) for i in range(1, n)]            # random tree: connected
+        edges += [(rng.randrange(n), rng.randrange(n)) for _ in range(rng.randrange(0, 3))]
+        edges = [(a, b) for a, b in edges if a != b]
+        out.append((f"random-{r}", graph(n, edges), tuple(sorted(rng.sample(range(1, n), k)))))
+    return out
+
+
 def steiner(topo, S):
     n = len(topo)
     others = [x for x in range(1, n) if x not in S]
@@ -107,7 +161,29 @@ def run(tree, tier):
                         viol_i.append({"topology": topo, "sensitive_subnets": list(S), "hops": got, "W": w, "steiner": st})
                     elif got > st:
                         viol_ii_known.append({"topology": topo, "sensitive_subnets": list(S), "hops": got, "steiner": st})
+    # self-check of the two independent reference computations against each other on a sample
+    ref_mismatch = 0
+    for smp in samples:
+        if W(smp["topology"], smp["sensitive_subnets"]) != W_dp(smp["topology"], smp["sensitive_subnets"]):
+            ref_mismatch += 1
+    big = 0
+    for name, topo, S in structured(tier):
+        evals += 1
+        big += 1
+        nontrivial += 1
+        got = int(f(topo, [(s, 0) for s in S]))
+        w = W_dp(topo, S)
+        if len(S) <= 6 and W(topo, S) != w:
+            ref_mismatch += 1
+        if got != w:
+            viol_i.append({"topology": topo, "sensitive_subnets": list(S), "hops": got, "W": w, "family": name})
+        elif len(topo) <= 9:
+            st = steiner(topo, S)
+            if got > st:
+                viol_ii_known.append({"topology": topo, "sensitive_subnets": list(S), "hops": got, "steiner": st})
     return {"evaluations": evals, "distinct_nontrivial": nontrivial, "nmax": nmax, "viol_i": viol_i,
+            "structured_instances": big, "max_sensitive_subnets": 8 if tier == "quick" else 9,
+            "reference_mismatch": ref_mismatch,
             "viol_ii_known": viol_ii_known, "samples": samples, "wall": time.time() - t0}
 
 
